@@ -24,27 +24,59 @@ var expectedProbes = map[string][]string{
 	"C05": {"wdag-failure-ran"},
 }
 
+var realBuild = []string{
+	"internal/cmd/cmds (BuildCmd.Run / TestCmd.Run / TaintCmd.Run / RunBuild bodies)", "internal/loading (JSON loader, glob resolution, parallel package walk)",
+	"internal/analysis", "internal/selection", "internal/label", "internal/model", "internal/hashing", "internal/execution (executor, cache gate, output checks)",
+	"internal/output (registry, file + directory handlers, protobuf)", "internal/caching (CAS, target results, taint)", "internal/caching/backends/fs.go",
+	"internal/locking", "internal/dag", "internal/worker", "internal/console (SetupCommand, logger)", "real files on tmpfs behind simos interposition",
+}
+var stubBuild = []string{
+	"shell commands: simexec interprets ': SIMCMD <label> vN' (reads inputs and dependency outputs from disk, fake-clock duration, writes outputs = pure function of what it read; honours context like os/exec)",
+	"bubbletea task UI (console.StartTaskUI body replaced)", "cobra/viper flag parsing (harness fills config.Global)", "gocodewalker parallel walker (deterministic lexical walker)",
+	"git rev-parse (exit 128)", "process table / os.Exit / signals (simos)",
+}
+var buildAssume = append([]string{
+	"simulated commands are deterministic functions of their declared inputs and dependency outputs, as the properties assume",
+	"reference model (harness/model.go) is written from the documentation; corners the documentation leaves open are classified MAY and never reported (DESIGN.md appendix A)",
+	"generator excludes: overlapping outputs, inputs that are another target's outputs, invalid UTF-8 names, dependency path counts above the cap",
+}, commonAssume...)
+
+const buildRule = "seeded universes (1-3 packages, 2-7 targets: explicit/glob inputs with excludes, file/dir/bin outputs, dependencies direct or through 1-2 aliases, tags, fingerprints, platforms, tests, checks, failing targets) and histories of 2-6 operations (edits incl. bytes moved across adjacent inputs, alias retargeting, revert; builds with random patterns/filters/num_workers/hash algorithm/enable_cache/fail_fast; taint; workspace mutations of output paths), each closed by a full build and an identical rebuild; every invocation is the real command body run as a simulated process under a seeded schedule. " +
+	"Oracle: reference model gives MUST / MUST-NOT / MAY execute per target and the bytes of a clean build. non-trivial = >=2 builds and >=1 context switch; distinct = distinct (history shape hash, schedule trace hash)."
+
 var plans = map[string]Plan{
+	"C01": {Jobs: []Job{{World: "wbuild", Params: "max_targets=6", Share: 1}}, Level: "exploration", Rule: buildRule + " C01: after every build that exits 0 every declared output of every selected target equals the model's clean build; a target that must execute for lack of a result for its current state did execute.",
+		Real: realBuild, Stub: stubBuild, Assume: buildAssume, QuickS: 45, ThoroughS: 1200},
+	"C02": {Jobs: []Job{{World: "wbuild", Params: "max_targets=6", Share: 1}}, Level: "exploration", Rule: buildRule + " C02: the set of commands executed by each build is compared with MUST-NOT (cached result for the current state, nothing forcing execution), incl. no-op rebuild, early cut-off (projected commands) and damaged output paths.",
+		Real: realBuild, Stub: stubBuild, Assume: buildAssume, QuickS: 45, ThoroughS: 1200},
+	"C06": {Jobs: []Job{{World: "wbuild", Params: "max_targets=6", Share: 1}}, Level: "exploration", Rule: buildRule + " C06: a restored (not executed) target's recursive listing (type, exec bit, content, link target, nothing extra) equals the clean build, from destination states absent / parent absent / modified / truncated / stale extra entries / file where a directory should be.",
+		Real: realBuild, Stub: stubBuild, Assume: buildAssume, QuickS: 45, ThoroughS: 1200},
+	"C12": {Jobs: []Job{{World: "wbuild", Params: "max_targets=6", Share: 1}}, Level: "exploration", Rule: buildRule + " C12: executed commands are a subset of the model's selection closure, the number of selected targets logged by grog lies in [must, must+may], a platform-incompatible dependency aborts before any command.",
+		Real: realBuild, Stub: stubBuild, Assume: buildAssume, QuickS: 45, ThoroughS: 1200},
+	"C13": {Jobs: []Job{{World: "wbuild", Params: "max_targets=6", Share: 1}}, Level: "exploration", Rule: buildRule + " C13: tainted / no-cache / cache-disabled targets must execute, a consumed taint must not force a second execution, dependants only if outputs changed.",
+		Real: realBuild, Stub: stubBuild, Assume: buildAssume, QuickS: 45, ThoroughS: 1200},
+	"C14": {Jobs: []Job{{World: "wbuild", Params: "max_targets=6", Share: 1}}, Level: "exploration", Rule: buildRule + " C14: targets that exit non-zero, time out on the fake clock, omit a declared output or fail an output check are never reported successful; a failing check forces execution although a cached result exists.",
+		Real: realBuild, Stub: stubBuild, Assume: buildAssume, QuickS: 45, ThoroughS: 1200},
 	"C03": {
-		Jobs:  []Job{{World: "wdag", Params: "max_n=400", Share: 1}},
+		Jobs:  []Job{{World: "wdag", Params: "max_n=400", Share: 0.5}, {World: "wbuild", Params: "max_targets=6", Share: 0.5}},
 		Level: "exploration",
 		Rule: "seeded random graphs (chain/tree/layers/diamond/random DAG, 1..400 nodes quick, ..3000 thorough), selections closed under dependencies, num_workers 1..8, latencies incl. zero and ties, failure subsets, fail-fast on/off; each run = one seeded schedule of the real walker + worker pool. " +
 			"Checked at every start event: all direct dependencies finished successfully, no second start, running <= num_workers. non-trivial = >=2 callbacks started, >=1 edge and >=1 context switch; distinct = distinct (workload shape hash, schedule trace hash)",
-		Real: realDag, Stub: stubDag, Assume: commonAssume, QuickS: 40, ThoroughS: 1200,
+		Real: append(realDag, realBuild...), Stub: append(stubDag, stubBuild...), Assume: buildAssume, QuickS: 50, ThoroughS: 1200,
 	},
 	"C04": {
-		Jobs:  []Job{{World: "wdag", Params: "max_n=400", Share: 1}},
+		Jobs:  []Job{{World: "wdag", Params: "max_n=400", Share: 0.5}, {World: "wbuild", Params: "max_targets=6", Share: 0.5}},
 		Level: "exploration",
 		Rule: "same workloads as C03 plus external cancellation; violation classes: hang (no runnable task and no pending timer for 2h simulated, or step budget), panic in grog code, concurrent map access (write-window monitor = the interleavings on which the Go runtime throws), unresolved / inconsistent completion map on return. " +
 			"non-trivial and distinct as for C03",
-		Real: realDag, Stub: stubDag, Assume: commonAssume, QuickS: 40, ThoroughS: 1200,
+		Real: append(realDag, realBuild...), Stub: append(stubDag, stubBuild...), Assume: buildAssume, QuickS: 50, ThoroughS: 1200,
 	},
 	"C05": {
-		Jobs:  []Job{{World: "wdag", Params: "max_n=400", Share: 1}},
+		Jobs:  []Job{{World: "wdag", Params: "max_n=400", Share: 0.5}, {World: "wbuild", Params: "max_targets=6", Share: 0.5}},
 		Level: "exploration",
 		Rule: "same workloads as C03 with failing subsets in both failure modes; keep-going: executed set == selected targets without failed transitive dependency, error summary names exactly the failed ones; fail-fast: no callback entered with a live context after a failing target's routine returned. " +
 			"non-trivial and distinct as for C03",
-		Real: realDag, Stub: stubDag, Assume: commonAssume, QuickS: 40, ThoroughS: 1200,
+		Real: append(realDag, realBuild...), Stub: append(stubDag, stubBuild...), Assume: buildAssume, QuickS: 50, ThoroughS: 1200,
 	},
 }
 
